@@ -619,7 +619,26 @@ class ExprMixin(object):
                 return V(mkI(((ai / cb) % 2) * cb), parse_spec('int'))
             if cb is not None and cb > 0 and ((cb + 1) & cb) == 0:
                 return V(mkI(ai % (cb + 1)), parse_spec('int'))
+            if cb is not None and cb > 0:
+                # a general constant mask: the sum of its single-bit masks
+                total = z3.IntVal(0)
+                k = 1
+                while k <= cb:
+                    if cb & k:
+                        total = total + ((ai / k) % 2) * k
+                    k <<= 1
+                return V(mkI(total), parse_spec('int'))
+            if cb == 0:
+                return V(mkI(0), parse_spec('int'))
             raise EngineError('symbolic bit-and')
+        if isinstance(op, (pyast.BitOr, pyast.BitXor, pyast.LShift, pyast.RShift)):
+            ca, cb = self.const_int(a), self.const_int(b)
+            if ca is not None and cb is not None:
+                import operator
+                f = {pyast.BitOr: operator.or_, pyast.BitXor: operator.xor, pyast.LShift: operator.lshift,
+                     pyast.RShift: operator.rshift}[type(op)]
+                return self.lift(f(ca, cb))
+            raise EngineError('symbolic %s' % type(op).__name__)
         raise EngineError('unsupported binary operator %s' % type(op).__name__)
 
     def str_repeat(self, st, s, n):
@@ -834,10 +853,11 @@ class ExprMixin(object):
             r = Val.r(base.t)
             t = self.dict_get(st, r, idx.t)
             self.raise_exit(st, KeyError, t == ABSENT, line)
-            if h.elem is not None:
-                self.assume(st, h.elem.assumption(t))
+            es = h.elem_for_key(self.const_str(idx)) if isinstance(idx, V) else h.elem
+            if es is not None:
+                self.assume(st, es.assumption(t))
             self.known_ref(st, t)
-            return V(t, h.elem)
+            return V(t, es)
         if h is not None and h.kind == 'obj':
             f = self.find_special(base, '__getitem__')
             if f is not None and not isinstance(f, list):
